@@ -747,6 +747,179 @@ impl Scenario for PolicyScenario {
     }
 }
 
+// ---- port requests over a port while the remote endpoint has no free port: the per-request wait flag ----
+
+/// A asks for `n_ports` ports over an existing port with `wait`; B (which accepts every request) has
+/// `free` free ports at that moment. One occupied port of B is released later.
+pub struct OverPortWaitScenario {
+    pub wait: bool,
+    pub n_ports: usize,
+    /// B's chunk size: 4 = one port per PortData frame (the list is split), 8 = two per frame
+    pub chunk_b: u32,
+}
+
+#[derive(Default)]
+struct WObs {
+    err: Option<String>,
+    /// request index -> (result, virtual ms at which it resolved)
+    results: BTreeMap<usize, (String, u64)>,
+    /// virtual ms at which the occupied port of B was released
+    released_at: u64,
+    is_wait_seen: Vec<bool>,
+}
+
+impl Scenario for OverPortWaitScenario {
+    fn id(&self) -> String {
+        format!("c10-overport/wait{}/n{}/chunk{}", self.wait as u8, self.n_ports, self.chunk_b)
+    }
+
+    fn start(&self, env: Env) -> (BoxFuture<'static, ()>, Judge) {
+        let obs = shared(WObs::default());
+        let o2 = obs.clone();
+        let (wait, n_ports, chunk_b) = (self.wait, self.n_ports, self.chunk_b);
+        let root = async move {
+            env.explore(false);
+            // B: base port + one occupied port + (n_ports - 1) free ports: exactly one request too many
+            let cfg_a = Cfg { max_ports: 16, ..cfg(8, 32, 32, 2, 2) };
+            let cfg_b = Cfg { max_ports: 2 + (n_ports as u32 - 1), ..cfg(chunk_b, 32, 32, 2, 2) };
+            let link = LinkOpts { capacity: 2, deliver_cap: 2, eof_on_drop: false };
+            let ((ca, la), (cb, mut lb)) = match env.pair(cfg_a, cfg_b, link, &[]).await {
+                Ok(x) => x,
+                Err(e) => {
+                    o2.lock().unwrap().err = Some(e);
+                    return;
+                }
+            };
+            let (c, a) = tokio::join!(ca.connect(), lb.accept());
+            let ((mut base_tx, base_rx_a), (base_tx_b, mut base_rx_b)) = match (c, a) {
+                (Ok(pa), Ok(Some(pb))) => (pa, pb),
+                _ => {
+                    o2.lock().unwrap().err = Some("base port".into());
+                    return;
+                }
+            };
+            let (c, a) = tokio::join!(ca.connect(), lb.accept());
+            let occupied = match (c, a) {
+                (Ok(pa), Ok(Some(pb))) => (pa, pb),
+                _ => {
+                    o2.lock().unwrap().err = Some("occupied port".into());
+                    return;
+                }
+            };
+            env.quiesce().await;
+            let t0 = env.now_ms();
+            // B accepts every request that arrives over the base port
+            let (o3, env3) = (o2.clone(), env.clone());
+            let port_listener = env.spawn("port-listener", 2, async move {
+                let mut kept = Vec::new();
+                while let Ok(Some(r)) = base_rx_b.recv_any().await {
+                    if let Received::Requests(reqs) = r {
+                        for req in reqs {
+                            o3.lock().unwrap().is_wait_seen.push(req.is_wait());
+                            let o4 = o3.clone();
+                            kept.push(env3.spawn("b-accept", 2, async move {
+                                let r = req.accept().await;
+                                if let Err(e) = &r {
+                                    let _ = (e, &o4);
+                                }
+                                r.ok()
+                            }));
+                        }
+                    }
+                }
+                (kept, base_rx_b)
+            });
+            let mut ports = Vec::new();
+            for i in 0..n_ports {
+                ports.push(PortReq::new(base_tx.port_allocator().allocate().await).with_id(id_of(i)));
+            }
+            let connects = match base_tx.connect(ports, wait).await {
+                Ok(c) => c,
+                Err(e) => {
+                    o2.lock().unwrap().err = Some(format!("connect over port: {e:?}"));
+                    return;
+                }
+            };
+            let mut hs = Vec::new();
+            for (i, c) in connects.into_iter().enumerate() {
+                let (o4, env4) = (o2.clone(), env.clone());
+                hs.push(env.spawn(&format!("req{i}"), 1, async move {
+                    let r = c.await;
+                    o4.lock().unwrap().results.insert(i, (match &r {
+                        Ok(_) => "Ok".to_string(),
+                        Err(e) => format!("Err({e:?})"),
+                    }, env4.now_ms() - t0));
+                    r.ok()
+                }));
+            }
+            // nothing is released for 10 virtual seconds, then B's occupied port goes away
+            tokio::time::sleep(Duration::from_secs(10)).await;
+            o2.lock().unwrap().released_at = env.now_ms() - t0;
+            drop(occupied);
+            tokio::time::sleep(Duration::from_secs(10)).await;
+            let mut kept = Vec::new();
+            for h in hs {
+                if let Ok(Ok(p)) = tokio::time::timeout(Duration::from_secs(30), h).await {
+                    kept.push(p);
+                }
+            }
+            drop(kept);
+            port_listener.abort();
+            let _ = port_listener.await;
+            drop((base_tx, base_rx_a, base_tx_b));
+            drop((ca, la, cb, lb));
+            env.quiesce().await;
+        };
+        let judge: Judge = Box::new(move |out: &Outcome| {
+            let o = obs.lock().unwrap();
+            let mut v = Verdict::default();
+            v.findings.extend(panic_findings(out, "C10"));
+            if let Some(e) = &o.err {
+                v.fail("C10", "overport-setup-failed", e.clone());
+            } else if out.ending != Ending::Completed {
+                v.fail("C10", "overport-scenario-stuck", format!("{:?}: {:?}", out.ending, o.results));
+            } else {
+                let ctx = format!("{n_ports} requests over a port with wait={wait}, B's chunk size {chunk_b}, B had {} free ports and released one more after {} ms; results {:?}; wait flags seen by B {:?}", n_ports - 1, o.released_at, o.results, o.is_wait_seen);
+                if o.is_wait_seen.len() == n_ports && o.is_wait_seen.iter().any(|w| *w != wait) {
+                    v.fail("C10", "wait-flag-of-port-request-changed", ctx.clone());
+                }
+                let ok = o.results.values().filter(|(r, _)| r == "Ok").count();
+                let refused_early = o.results.values().filter(|(r, t)| r == "Err(RemotePortsExhausted)" && *t < o.released_at).count();
+                let resolved_early = o.results.values().filter(|(_, t)| *t < o.released_at).count();
+                if o.results.len() != n_ports {
+                    v.fail("C10", "request-never-resolves", ctx.clone());
+                } else if wait {
+                    // all requests are served: n-1 at once, the last one when the port is released
+                    if ok != n_ports || resolved_early != n_ports - 1 {
+                        v.fail("C10", "waiting-port-request-not-served", ctx.clone());
+                    }
+                } else {
+                    // n-1 accepted at once, one refused at once with the true reason
+                    if ok != n_ports - 1 || refused_early != 1 || resolved_early != n_ports {
+                        v.fail("C10", "no-wait-port-request-not-refused-at-once", ctx.clone());
+                    }
+                }
+            }
+            v.outcome = format!("{:?}|{:?}", o.results, o.is_wait_seen);
+            v.nontrivial = true;
+            v
+        });
+        (Box::pin(root), judge)
+    }
+}
+
+pub fn overport_scenarios() -> Vec<Arc<dyn Scenario>> {
+    let mut out: Vec<Arc<dyn Scenario>> = Vec::new();
+    for wait in [false, true] {
+        for n_ports in [1usize, 2, 3] {
+            for chunk_b in [4u32, 8] {
+                out.push(Arc::new(OverPortWaitScenario { wait, n_ports, chunk_b }));
+            }
+        }
+    }
+    out
+}
+
 pub fn policy_scenarios() -> Vec<Arc<dyn Scenario>> {
     let mut out: Vec<Arc<dyn Scenario>> = Vec::new();
     for policy in [Policy::Fail, Policy::WaitForever, Policy::WaitLimited] {
@@ -761,6 +934,7 @@ pub fn all_scenarios(tier: Tier) -> Vec<Arc<dyn Scenario>> {
     let mut v = grid(tier);
     v.extend(core(tier));
     v.extend(policy_scenarios());
+    v.extend(overport_scenarios());
     v
 }
 
@@ -771,7 +945,8 @@ pub fn run(tier: Tier, seed: u64) -> i32 {
     let p0 = Params { max_dev: 0, seeds: vec![seed, seed + 1], time_limit: Duration::from_secs(if q { 25 } else { 600 }), ..Default::default() };
     rep.add("request kinds x listener actions x max_ports x connect_queue at d=0", explore("C10", grid(tier), p0, &known));
     let pp = Params { max_dev: 0, seeds: vec![seed], time_limit: Duration::from_secs(20), ..Default::default() };
-    rep.add("configured default exhaustion policy (fail / wait / wait with time limit) x moment at which a port becomes free", explore("C10", policy_scenarios(), pp, &known));
+    rep.add("configured default exhaustion policy (fail / wait / wait with time limit) x moment at which a port becomes free", explore("C10", policy_scenarios(), pp.clone(), &known));
+    rep.add("port requests over a port with and without the wait flag while the remote endpoint has one free port too few, port list split or not", explore("C10", overport_scenarios(), pp, &known));
     let p = Params { max_dev: if q { 2 } else { 3 }, seeds: vec![seed, seed + 1], time_limit: Duration::from_secs(if q { 25 } else { 900 }), ..Default::default() };
     rep.add("concurrent connects/accepts/rejects/cancels under schedule exploration; sent-ordering", explore("C10", core(tier), p, &known));
     rep.rule = "a case = (request kinds incl. wait/no-wait/over-port/cancelled, listener action script incl. accept/inspect-accept/reject/drop/cancelled accept, max_ports pair, connect_queue, schedule deviations); distinct = distinct (results, listener ground truth, ending); non-trivial = at least one request was accepted among several, or requests were outstanding on the wire".into();
